@@ -365,7 +365,7 @@ def check(ctx):
                 if isinstance(t, ast.Attribute) and t.attr in ("_stdout", "_stderr"):
                     facts = facts_text(facts_at(ccfg, n))
                     sent = {"_stdout": "_PIPE_ALL", "_stderr": "_PIPE_ERR"}[t.attr]
-                    ok = const_value(n.ast.value, 0) is None and f"{unparse(t)} is {sent}" in facts
+                    ok = const_value(n.ast.value, 0) is None and (f"{unparse(t)} is {sent}", True) in nfacts(ccfg, n)
                     ctx.ob("R4", f"{SP}:cmds_to_specs", f"`{short(n.ast)}` clears exactly the tested pipe sentinel", ok, key=f"cmds_to_specs|sentinel-clear|{t.attr}", where=loc(n.ast), detail="; ".join(facts))
     # ---- R4 residual sentinel check dominates the normal return
     raises = [n for n in ccfg.nodes if n.kind == "stmt" and isinstance(n.ast, ast.Raise) and "requires a following pipe" in unparse(n.ast)]
